@@ -6,11 +6,14 @@ for d in sorted(glob.glob("/verif/seeded/C*-m*")):
     m = json.load(open(os.path.join(d, "meta.json")))
     runs = m.get("checks_run", {})
     caught = ", ".join(f"{k}: {'caught' if v.get('exit') == 1 else 'NOT caught' if v.get('exit') == 0 else 'exit ' + str(v.get('exit'))}" for k, v in runs.items())
+    if "after_strengthening" in m:
+        a = m["after_strengthening"]
+        caught = f"first attempt: {m.get('first_attempt')}; now {a['property']}: {'caught' if a['exit'] == 1 else 'NOT caught'} ({a['first_sig'][:60]})"
     rows.append((os.path.basename(d), (m.get("summary") or "").replace("\n", " ").replace("|", "/")[:260], (m.get("needs") or "").replace("\n", " ").replace("|", "/")[:200], caught))
 with open("/verif/seeded/SUMMARY.md", "w") as f:
     f.write("# Seeded changes kept under /verif/seeded\n\n"
             "Each directory holds `patch.diff` (applies to /repo's HEAD at the time it was stored), `demo.py` (exits 0 without, non-zero with the change) "
-            "and `meta.json`. `-m1/-m2` = first round (pinned tree + early fixes), `-m3/-m4` = second round (repaired HEAD, less obvious code paths). "
+            "and `meta.json`. `-m1/-m2` = first round (pinned tree + early fixes), `-m3/-m4` = second round (repaired HEAD, less obvious code paths), `-m5/-m6`, `-m7/-m8`, `-m9/-m10`, `-m11/-m12` = rounds three to six. "
             "The last column is the result of the registered quick check(s) run with the patch applied to /repo (exit 1 + VIOLATION line = caught); "
             "seeds that were missed at first were used to strengthen the checks and re-run (DESIGN.md 12.5-12.8).\n\n"
             "| seed | change | needs | checks |\n|---|---|---|---|\n")
